@@ -97,6 +97,8 @@ def run(i, props):
         save(i, m)
     finally:
         sh(f"git -C {REPO} checkout -- .")
+        # the evidence files written by these runs describe a patched tree: restore the committed ones (written on the unchanged tree)
+        sh(f"git -C {V} checkout -- evidence/")
 
 
 if __name__ == "__main__":
